@@ -18,10 +18,19 @@ pub struct InputEvent {
     pub alt_idx: Option<usize>,
 }
 
+/// Text content is held unescaped (it is escaped again when written);
+/// content with unknown entities is kept as-is.
+fn unescaped_text(t: &BytesText) -> String {
+    match t.unescape() {
+        Ok(s) => s.into_owned(),
+        Err(_) => String::from_utf8_lossy(t).into_owned(),
+    }
+}
+
 impl InputEvent {
     pub fn text_string(&self) -> Option<String> {
         match &self.event {
-            Event::Text(t) => Some(String::from_utf8(t.to_vec()).expect("utf8")),
+            Event::Text(t) => Some(unescaped_text(t)),
             _ => None,
         }
     }
@@ -293,7 +302,7 @@ pub fn tagify_events(events: InputList) -> Result<Vec<Tag>> {
                 tags.push(Tag::Comment(text, None));
             }
             Event::Text(t) => {
-                let text = String::from_utf8(t.to_vec())?;
+                let text = unescaped_text(t);
                 if let Some(t) = tags.last_mut() {
                     t.set_text(text)
                 } else {
@@ -350,9 +359,7 @@ impl From<InputEvent> for OutputEvent {
                     String::from_utf8(e.name().into_inner().to_vec()).expect("utf8");
                 OutputEvent::End(elem_name)
             }
-            Event::Text(t) => {
-                OutputEvent::Text(String::from_utf8(t.into_inner().to_vec()).expect("utf8"))
-            }
+            Event::Text(t) => OutputEvent::Text(unescaped_text(&t)),
             Event::CData(c) => {
                 OutputEvent::CData(String::from_utf8(c.into_inner().to_vec()).expect("utf8"))
             }
